@@ -554,9 +554,24 @@ func (w *World) waitIdle() {
 		log := w.da.Log()
 		if n := len(log); n > w.logN {
 			last := log[n-1]
-			if strings.HasSuffix(last, ":future") {
+			if strings.HasSuffix(last, ":future") || strings.HasSuffix(last, ":futuretext") {
 				time.Sleep(2 * time.Millisecond)
 				return
+			}
+			// a text-only "from the future" error on a Get ends the round (the loop recognises the text): quiet log
+			lastIds := ""
+			for i := n - 1; i >= w.logN; i-- {
+				if strings.HasPrefix(log[i], "ids:") {
+					lastIds = log[i]
+					break
+				}
+			}
+			if strings.Contains(lastIds, ":errgettext") && strings.HasPrefix(last, "get:") {
+				time.Sleep(250 * time.Millisecond)
+				if len(w.da.Log()) == n {
+					return
+				}
+				continue
 			}
 			// ten failed attempts at one height end the pass
 			fails, h := 0, ""
@@ -568,7 +583,8 @@ func (w *World) waitIdle() {
 				if p[1] != h {
 					h, fails = p[1], 0
 				}
-				if p[2] == "errids" || strings.HasPrefix(p[2], "errget") {
+				if p[2] == "errids" || strings.HasPrefix(p[2], "errget") || p[2] == "notfoundtext" {
+					// (a text-only "not found" is a success on the unchanged tree: the next line is then another height)
 					fails++
 				} else {
 					fails = 0
@@ -610,6 +626,10 @@ func (w *World) checkScan(log []string, cursor uint64, hs []block.NewHeaderEvent
 			case h == cur && !success: // retry of a failed height
 			case h == cur+1 && success:
 				cur = h
+			case h == cur && success && strings.HasPrefix(lastOutcome, "notfound"):
+				// the DA layer said "nothing at this height" (as a sentinel or as a text-only error) and the height is
+				// examined again instead of being passed
+				c.Report("C09/scan/empty-height-not-passed/"+lastOutcome, fmt.Sprintf("height %d examined again after the DA layer reported it empty", h))
 			default:
 				c.Report("C09/scan/height-skipped-or-out-of-order", fmt.Sprintf("examined %d while the cursor was %d (last outcome %s, success %v)", h, cur, lastOutcome, success))
 				cur = h
@@ -623,7 +643,7 @@ func (w *World) checkScan(log []string, cursor uint64, hs []block.NewHeaderEvent
 		case p[2] == "ok":
 			success = true
 			fetched[h] = true
-		case p[2] == "notfound":
+		case p[2] == "notfound" || p[2] == "notfoundtext":
 			success = true
 		case strings.HasPrefix(p[2], "errget"):
 			fc := 0
@@ -645,6 +665,8 @@ func (w *World) checkScan(log []string, cursor uint64, hs []block.NewHeaderEvent
 	if len(log) > 0 && cursor != want {
 		if cursor > want {
 			c.Report("C09/cursor/advanced-past-a-height-not-fetched", fmt.Sprintf("cursor %d, last examined %d with outcome %s", cursor, cur, lastOutcome))
+		} else if strings.HasPrefix(lastOutcome, "notfound") {
+			c.Report("C09/scan/empty-height-not-passed/"+lastOutcome, fmt.Sprintf("cursor %d stays at a height the DA layer reported empty (expected %d)", cursor, want))
 		} else {
 			c.Report("C09/cursor/not-advanced-after-success", fmt.Sprintf("cursor %d expected %d", cursor, want))
 		}
@@ -655,7 +677,7 @@ func (w *World) checkScan(log []string, cursor uint64, hs []block.NewHeaderEvent
 			continue
 		}
 		w.passed[h] = true
-		for _, p := range w.placed {
+		for pi, p := range w.placed {
 			if p.da != h || p.genuine == "" {
 				continue
 			}
@@ -672,10 +694,26 @@ func (w *World) checkScan(log []string, cursor uint64, hs []block.NewHeaderEvent
 			}
 			if found == 0 {
 				c.Report("C09/handoff/genuine-blob-not-handed-to-sync", fmt.Sprintf("%s at DA height %d", p.genuine, h))
+				// C03: third-party material on the DA layer must not prevent the node from following the proposer's chain
+				if ahead := w.thirdPartyAhead(pi); ahead > 0 {
+					c.Report("C03/interference/proposer-blob-not-handed-over-behind-third-party-blobs",
+						fmt.Sprintf("%s at DA height %d sits behind %d third-party blobs (%d blobs at the height)", p.genuine, h, ahead, len(w.da.Blobs[h])))
+				}
 			}
 		}
 	}
 	w.lastC = cursor
+}
+
+// thirdPartyAhead: how many blobs that are not the proposer's were placed before placed[i] at the same DA height
+func (w *World) thirdPartyAhead(i int) int {
+	n := 0
+	for j := 0; j < i; j++ {
+		if w.placed[j].da == w.placed[i].da && w.placed[j].genuine == "" {
+			n++
+		}
+	}
+	return n
 }
 
 // note: remember which header hashes the node was given in a form really signed with the proposer's key
